@@ -175,8 +175,7 @@ func writeTables(ctx *common.Ctx) (map[string][][]string, string) {
 
 // the expected word tables (the same as Spec.std_tables): an entry of the source that differs is reported with
 // an input that prints it — the model of the correspondence follows the regenerated tables, so without this a
-// changed word would only show as a failed table theorem. The one deviation of the unchanged tree
-// (cardinalTriples[6] = "quantillion") is the known finding C15-quantillion.
+// changed word would only show as a failed table theorem. (cardinalTriples[6] was "quantillion" until repo_fixes/C15-1.)
 var expectedTables = map[string][][]string{
 	"romanNumerals": {{"", "I", "II", "III", "IV", "V", "VI", "VII", "VIII", "IX"}, {"", "X", "XX", "XXX", "XL", "L", "LX", "LXX", "LXXX", "XC"},
 		{"", "C", "CC", "CCC", "CD", "D", "DC", "DCC", "DCCC", "CM"}, {"", "M", "MM", "MMM"}},
@@ -214,7 +213,7 @@ func reportChangedEntries(ctx *common.Ctx, found map[string][][]string) {
 			}
 			for i := 0; i < n; i++ {
 				e, g := at(exp, r, i), at(got, r, i)
-				if e == g || (name == "cardinalTriples" && i == 6 && g == "quantillion") {
+				if e == g {
 					continue
 				}
 				// an input that prints the entry
